@@ -16,6 +16,7 @@ PROVED IN FULL for every input of the domain [0, 2^9] — with the sharper const
 (The true maximum of |R − 2^X| is about 4.4·10^-23, attained at X = 0 where the code special-cases the exact 1.)
 -/
 import OsmoVerif.Proofs.MathExp2c
+import OsmoVerif.Proofs.MathExp2Total
 import OsmoVerif.Props.C13
 
 namespace OsmoVerif.Props.C13Exp2
@@ -144,6 +145,26 @@ theorem exp2_quasi_mono {e e' r r' : Int} (hle : e ≤ e') (h : exp2 e = some r)
   obtain ⟨a1, a2⟩ := abs_le.mp h1
   obtain ⟨b1, b2⟩ := abs_le.mp h2
   nlinarith
+
+/-! ## totality on the domain -/
+
+theorem exp2Rational_total {x : Int} (h0 : 0 ≤ x) (h1 : x ≤ P36) : ∃ r, exp2Rational x = some r :=
+  OsmoVerif.MathM.exp2Rational_total h0 h1
+
+/-- `Exp2` returns exactly on `[0, maxSupportedExponent] = [0, 2^9]` (no panic inside the domain). -/
+theorem exp2_some_iff {e : Int} : (∃ r, exp2 e = some r) ↔ 0 ≤ e ∧ e ≤ Osmomath.maxSupportedExponent := by
+  constructor
+  · rintro ⟨r, h⟩
+    by_contra hc
+    rw [C13.exp2_domain (by omega)] at h; cases h
+  · rintro ⟨h0, h1⟩
+    rw [C13.exp2_split h0 h1]
+    obtain ⟨_, hp, _⟩ := tdiv_tmod_spec e P36 P36_pos
+    have hp := hp h0
+    have hf : e - e.tdiv P36 * P36 = e.tmod P36 := by
+      have := (tdiv_tmod_spec e P36 P36_pos).1; omega
+    obtain ⟨fr, hfr⟩ := exp2Rational_total (x := e - e.tdiv P36 * P36) (by omega) (by omega)
+    exact ⟨_, by rw [hfr]; rfl⟩
 
 /-! ## non-vacuity -/
 example : exp2Rational (5 * 10 ^ 35) = some 1414213562373095048801688724209698079 := by decide +kernel
